@@ -7,7 +7,9 @@ From Cfi Require Import Proofs.FieldProofs Proofs.LineProofs Proofs.ReaderProofs
 Import ListNotations.
 
 (* positional text: the written register carries its identifier left-justified in the identifier columns, is
-   recognised by its own type's identifier test on the leading window, and ends with a newline *)
+   recognised by its own type's identifier test on the leading window, and ends with a newline.
+   reg_wf: the identifier is no longer than its window, the fields lie to the right of it, and -- when the identifier test
+   is a regular expression rather than the literal -- that expression finds the left-justified literal (one evaluation) *)
 Theorem C10_recognised : forall rs i d text, r_delim (nth_reg rs i) = None -> reg_wf (nth_reg rs i) ->
   all_none d = false -> write_elem Text rs (ETyped i d) = Some text ->
   Forall (fun fv => fits (fst fv) (snd fv) = true) (combine (r_fields (nth_reg rs i)) d) -> length d = length (r_fields (nth_reg rs i)) ->
